@@ -10,7 +10,9 @@ import SimbodyModel.C24
 * `I svdrank k rcond S[k]`                                   → `O svdrank r`     (rank by threshold as coded)
 * `I eig prec n tolk A[n²] lr[n] li[n] Vr[n²] Vi[n²]`        → `O eig 1|0`       (vectors as rows)
 * `I inv prec n tolk A[n²] X[n²]`                            → `O inv 1|0`
-* `I qtzdiag prec t`                                         → `O qtzdiag r`     (rank of diag(1,t) under the default rcond)
+* `I pinv prec n tolk A[n²] X[n²]`                           → `O pinv 1|0`      (Moore–Penrose conditions 1,2)
+* `I qtzdiag prec m n t`                                     → `O qtzdiag r`     (rank of the m×n matrix diag(1,t,0…) under the default rcond)
+* `I svddiag prec m n t`                                     → `O svddiag 1|0`   (does FactorSVD::solve keep the singular value t?)
 -/
 open Proto C24
 
@@ -44,7 +46,7 @@ def handle (fn : String) (fs : List Float) : String :=
     let tol := tolOf (nat prec) (max m n) tolk
     let a := lsAccept tol A n b x
     if nat exact = 1 then
-      "O ls " ++ b01 (a && minNormAccept tol A x (nullBasis A n)) ++ " " ++ b01 (nat rank == 999 || exactRank A n == nat rank)
+      "O ls " ++ b01 (a && refAccept A n && minNormAccept tol A x (nullBasis A n)) ++ " " ++ b01 (nat rank == 999 || exactRank A n == nat rank)
     else "O ls " ++ b01 a ++ " 1"
   | "svd", prec :: mf :: nf :: tolk :: rest =>
     let m := nat mf; let n := nat nf; let k := min m n
@@ -66,11 +68,13 @@ def handle (fn : String) (fs : List Float) : String :=
   | "inv", prec :: nf :: tolk :: rest =>
     let n := nat nf
     "O inv " ++ b01 (invAccept (tolOf (nat prec) n tolk) (toMat rest n n) (toMat (rest.drop (n * n)) n n))
-  | "qtzdiag", [prec, t] =>
-    -- FactorQTZ(diag(1,t)): pivoted QR leaves R = diag(1,t); the incremental condition estimate is exact for a diagonal
-    -- matrix, so the second column is accepted iff smax*rcond < smin, i.e. rcond < t, with the default rcond = 2*significant
-    let rc := defaultRcond Float.ofNat 2 2 (significant (nat prec))
-    "O qtzdiag " ++ (if 1.0 * rc < t then "2" else "1")
+  | "pinv", prec :: nf :: tolk :: rest =>
+    let n := nat nf
+    "O pinv " ++ b01 (pinvAccept (tolOf (nat prec) n tolk) (toMat rest n n) (toMat (rest.drop (n * n)) n n))
+  | "qtzdiag", [prec, m, n, t] =>
+    "O qtzdiag " ++ toString (qtzDiagRank Float.ofNat (nat m) (nat n) (significant (nat prec)) t)
+  | "svddiag", [prec, m, n, t] =>
+    "O svddiag " ++ b01 (svdDiagKeeps Float.ofNat (nat m) (nat n) (significant (nat prec)) t)
   | _, _ => "O " ++ fn ++ " ERR"
 
 def main : IO Unit := do
